@@ -21,7 +21,7 @@ import (
 
 // C20 — the JSON output is well-formed and faithful to the data.
 
-var c20Alphabet = []string{"\"", "\\", "\x01", "\x1f", "\x7f", "<", ">", "&", "é", "中", " ", "\xff", "#a", " ", "\\u0041", "\xe4\xb8"}
+var c20Alphabet = []string{"'", "\"", "\\", "\x01", "\x1f", "\x7f", "<", ">", "&", "é", "中", " ", "\xff", "#a", " ", "\\u0041", "\xe4\xb8"}
 
 func c20Families(tier fw.Tier) []docFamily {
 	return cachedFamilies("c20/"+string(tier), func() []docFamily {
